@@ -5,6 +5,7 @@ import (
 	"fmt"
 	"io"
 	"net"
+	"os"
 	"runtime"
 	"sort"
 	"strings"
@@ -77,7 +78,28 @@ func (c *c26Conn) SetDeadline(time.Time) error      { return nil }
 func (c *c26Conn) SetReadDeadline(time.Time) error  { return nil }
 func (c *c26Conn) SetWriteDeadline(time.Time) error { return nil }
 
+var c26Debug = os.Getenv("VERIF_C26DEBUG") != ""
+
+func (c *c26Conn) Read(b []byte) (int, error) {
+	n, err := c.Conn.Read(b)
+
+	if c26Debug {
+		c.r.Event(fmt.Sprintf("conn %p read %d err=%v %q", c.Conn, n, err, b[:min(n, 40)]))
+	}
+
+	return n, err
+}
+
 func (c *c26Conn) Write(b []byte) (int, error) {
+	if c26Debug {
+		left := -99
+		if l := *c.left; l != nil {
+			left = *l
+		}
+
+		c.r.Event(fmt.Sprintf("conn %p write %d left=%d %q", c.Conn, len(b), left, b[:min(len(b), 4000)]))
+	}
+
 	// -2: the server stays unreachable (every connection breaks at once) until the harness lifts the fault: the
 	// client's retries are used up and the merge fails in the middle
 	if left := *c.left; left != nil && *left == -2 {
@@ -318,9 +340,13 @@ func c26Run(r *simkit.Run) {
 			PoolSize:         1 + r.Choose(3),
 			DisableIndentity: true,
 			Protocol:         2,
-			DialTimeout:      time.Minute,
-			ReadTimeout:      time.Minute,
-			WriteTimeout:     time.Minute,
+			// the client's retry back-off takes its jitter from a process-wide generator inside go-redis, which a replay
+			// in a fresh process would not repeat: equal bounds make the back-off constant
+			MinRetryBackoff: 8 * time.Millisecond,
+			MaxRetryBackoff: 8 * time.Millisecond,
+			DialTimeout:     time.Minute,
+			ReadTimeout:     time.Minute,
+			WriteTimeout:    time.Minute,
 		}
 
 		if noRetry {
